@@ -1,0 +1,26 @@
+// SPDX-FileCopyrightText: 2014-2024 caixw
+//
+// SPDX-License-Identifier: MIT
+
+//go:build verif
+
+// Contracts for package trace, read by the verification tooling under /verif.
+// This file contains comments only and is excluded from normal builds.
+
+package trace
+
+// The TRACE echo (C18): the request is dumped first; only if that succeeds the content type is set, then the
+// status 200 is sent, then the body is written - in this order, each exactly once, and nothing else is called.
+//@ fn Trace
+//@   requires w != nil && r != nil
+//@   callsonly [C18] httputil.DumpRequest, http.ResponseWriter.Header, http.Header.Set, http.ResponseWriter.WriteHeader, html.EscapeString, http.ResponseWriter.Write
+//@   atcall httputil.DumpRequest [C18] dumps-the-request: arg0 == r && arg1 == body
+//@   atcall http.Header.Set [C18] content-type: arg0 == hdrOf(w) && arg1 == "Content-Type" && arg2 == "message/http" && !called("http.ResponseWriter.WriteHeader", 1)
+//@   atcall http.ResponseWriter.WriteHeader [C18] status-after-type: arg0 == w && arg1 == 200 && hdrOf(w).first["Content-Type"] == "message/http" &&
+//@        callresult("httputil.DumpRequest", 1, 1) == nil
+//@   atcall http.ResponseWriter.Write [C18] body-after-status: arg0 == w && called("http.ResponseWriter.WriteHeader", 1)
+//@   atcall http.ResponseWriter.Write [C18] escaped-dump: arg1 == str2bytes(pure0("html.EscapeString", bytes2str(callresult("httputil.DumpRequest", 1, 0))))
+//@   ensures [C18] dump-error: callresult("httputil.DumpRequest", 1, 1) != nil ==> result == callresult("httputil.DumpRequest", 1, 1) &&
+//@        !called("http.ResponseWriter.WriteHeader", 1) && !called("http.ResponseWriter.Write", 1)
+//@   ensures [C18] answered: callresult("httputil.DumpRequest", 1, 1) == nil ==> called("http.ResponseWriter.WriteHeader", 1) && called("http.ResponseWriter.Write", 1) &&
+//@        result == callresult("http.ResponseWriter.Write", 1, 1)
